@@ -7,6 +7,7 @@ import GqlVerif.Proofs.SerdeFuelCodegen
 import GqlVerif.Proofs.AcyclicModulesClasses
 import GqlVerif.Proofs.ModuleOkInputsClasses
 import GqlVerif.Proofs.C01NestedK
+import GqlVerif.Proofs.C01NestedAbsE
 open GqlVerif.C17
 #print axioms search_guarded_eq
 #print axioms search_guarded_total
@@ -117,3 +118,5 @@ open GqlVerif.C17
 -- NestedOp: the module environment is acyclic, from the class alone (P45)
 #print axioms GqlVerif.C01N.nested_reachRanked
 #print axioms GqlVerif.C01N.nested_module_envOK
+-- NestedAbsOp (P46)
+#print axioms GqlVerif.C01NA.nestedabs_module_envOK
